@@ -24,6 +24,9 @@ def tpl_ids(sizeA, sizeB, named, x1, a1, x2, a2, x3, a3, x4, a4, t, _twin=False)
     w = World("c11.ids")
     code = 0
     try:
+        # a pool somebody named with digits (the index a later unnamed pool will get): only *unnamed* pools are
+        # compared with each other below - a chosen name that imitates a default one is the user's business
+        Z = SimpleTaskPool(w.worker("Z"), name="4")
         A = TaskPool(pool_size=sizeA)
         refB = [None]
         ecb, ccb = w.callbacks(1, refB)
@@ -34,8 +37,8 @@ def tpl_ids(sizeA, sizeB, named, x1, a1, x2, a2, x3, a3, x4, a4, t, _twin=False)
         B2 = SimpleTaskPool(fB)         # a second simple pool built on the very same coroutine function, unnamed
         B3 = SimpleTaskPool(fB, pool_size=sizeB)
         itA, itB = Interp(w, A, cbkind=2), Interp(w, B, cbkind=0)
-        names = [str(A), str(B), str(C), str(B2), str(B3)]
-        if len(set(names)) != 5:
+        names = [str(A), str(C), str(B2), str(B3)] + ([] if named else [str(B)])
+        if len(set(names)) != len(names):
             code = 1106
 
         def check():
@@ -115,7 +118,8 @@ def tpl_ids(sizeA, sizeB, named, x1, a1, x2, a2, x3, a3, x4, a4, t, _twin=False)
                 if g.done():
                     D = TaskPool()
                     E = SimpleTaskPool(w.worker("E"))
-                    if len({str(A), str(B), str(C), str(B2), str(B3), str(D), str(E)}) != 7:
+                    names2 = names + [str(D), str(E)]
+                    if len(set(names2)) != len(names2):
                         w.fail(1106)
         except Excluded as e:
             w.excluded = str(e)
